@@ -63,6 +63,8 @@ type FuncContract struct {
 	Arith    string
 	Checks   map[string]bool
 	NoChecks map[string]bool
+	Safety   []string // properties the zero-annotation safety obligations are attributed to (nil = all props)
+	HasSafety bool
 	File     string
 	Line     int
 	Stub     bool
@@ -392,6 +394,13 @@ func parseClause(body, path string, line int, fc *FuncContract, us *UnitSpec) er
 		us.Asserts = append(us.Asserts, c)
 	case word == "prop":
 		fc.Props = append(fc.Props, strings.Fields(strings.ReplaceAll(rest, ",", " "))...)
+	case word == "safety":
+		fc.HasSafety = true
+		for _, c := range strings.Fields(strings.ReplaceAll(rest, ",", " ")) {
+			if c != "none" {
+				fc.Safety = append(fc.Safety, c)
+			}
+		}
 	case word == "inline":
 		fc.Inline = true
 	case word == "trusted":
